@@ -143,11 +143,6 @@ class State:
             return True
         if z3.is_false(cond):
             return False
-        if self.pos < len(self.prefix):
-            # replay: the decision was feasible when recorded
-            d = self.decide(2)
-            self.assume(cond if d == 0 else z3.Not(cond))
-            return d == 0
         can_t = self._sat(cond)
         can_f = self._sat(z3.Not(cond))
         if can_t and can_f:
@@ -584,6 +579,9 @@ class Interp:
             return self.call(callm, args, kwargs, node)
         if isinstance(f, ClassMethodVal):
             raise Unsupported('unbound classmethod call')
+        r = self.env.call_other(self, f, list(args), dict(kwargs))
+        if r is not NotImplemented:
+            return r
         raise Unsupported('call of %r' % (f,))
 
     def call_function(self, fv, args, kwargs, cm_body=None, gen_record=None):
